@@ -361,12 +361,25 @@ class Check:
             json.dump(replay_obj, fh, indent=1, default=str, ensure_ascii=False)
         self.violations.append({"sig": sig, "what": what, "replay": path, "no_input": no_input})
 
-    def skip_large(self, what):
-        """the very large inputs are there to expose what small ones cannot; once a failing input is in hand they only cost time
-        (a broken search can return almost every pair of 50 000 sequences)"""
-        if [v for v in self.violations if not v["no_input"]]:
-            self.notes.append(f"{what} skipped: a failing input had already been found")
+    def skip_large(self, what, probe=None, budget_s=6.0):
+        """the very large inputs are there to expose what small ones cannot; once a failing input (or a broken correspondence) is in
+        hand they only cost time - a broken search can return almost every pair of 50 000 sequences. `probe` runs the same search on
+        a few thousand sequences first: if that alone exceeds the budget (normally a fraction of a second), the large run would
+        take hours; it is skipped with a note (speed is not part of any property)"""
+        if [v for v in self.violations if not v["no_input"]] or self.broken_obligations:
+            self.notes.append(f"{what} skipped: a failing input / broken correspondence had already been found")
             return True
+        if probe is not None:
+            t0 = time.time()
+            try:
+                probe()
+            except Exception:  # noqa  (the large run itself will report it)
+                return False
+            dt = time.time() - t0
+            if dt > budget_s:
+                self.notes.append(f"{what} skipped: the same search on a few thousand sequences took {dt:.1f} s (budget {budget_s} s)")
+                print(f"NOTE property={self.pid} {what} skipped: the search is too slow for it ({dt:.1f} s on a few thousand sequences)")
+                return True
         return False
 
     def model_error(self, what):
